@@ -65,5 +65,6 @@ int h_tls_op(const char *op, int argc, char **argv, FILE *out);
 int h_hostport_op(const char *op, int argc, char **argv, FILE *out);
 int h_misc_op(const char *op, int argc, char **argv, FILE *out);
 int h_tcp_op(const char *op, int argc, char **argv, FILE *out);
+int h_udp_op(const char *op, int argc, char **argv, FILE *out);
 int h_dns_op(const char *op, int argc, char **argv, FILE *out);
 #endif
